@@ -168,3 +168,46 @@ Proof.
   - f_equal. f_equal. lia.
   - rewrite IH by lia. f_equal. f_equal. lia.
 Qed.
+
+(* ---------- the solver's own stream (known finding C12:random-solver:shared-python-random-per-chunk) ---------- *)
+Lemma el_solver_seq_nth reps L pos j : (j < reps)%nat -> nth_error (el_solver_seq reps L pos) j = Some (pos + j * L)%nat.
+Proof.
+  revert pos j; induction reps as [|r IH]; intros pos j Hj; [lia|].
+  destruct j as [|j]; cbn [el_solver_seq nth_error].
+  - f_equal; lia.
+  - rewrite IH by lia. f_equal; lia.
+Qed.
+
+Lemma el_solver_seq_length reps L pos : length (el_solver_seq reps L pos) = reps.
+Proof. revert pos; induction reps as [|r IH]; intros pos; cbn [el_solver_seq length]; [reflexivity|]. now rewrite IH. Qed.
+
+(* sequentially, distinct repetitions of positive length read disjoint stretches of the solver's stream *)
+Theorem el_solver_seq_distinct reps L j j' p p' : (0 < L)%nat -> j <> j' ->
+  nth_error (el_solver_seq reps L 0) j = Some p -> nth_error (el_solver_seq reps L 0) j' = Some p' -> p <> p'.
+Proof.
+  intros HL Hne H1 H2.
+  assert (Hj : (j < reps)%nat) by (rewrite <- (el_solver_seq_length reps L 0); apply nth_error_Some; congruence).
+  assert (Hj' : (j' < reps)%nat) by (rewrite <- (el_solver_seq_length reps L 0); apply nth_error_Some; congruence).
+  rewrite el_solver_seq_nth in H1, H2 by assumption.
+  injection H1 as <-. injection H2 as <-. nia.
+Qed.
+
+(* with two non-empty chunks the first repetitions of both chunks replay the same stretch of the solver's stream *)
+Theorem el_solver_par_replays c1 c2 rest L : (0 < c1)%nat -> (0 < c2)%nat ->
+  nth_error (el_solver_par (c1 :: c2 :: rest) L) 0 = Some 0%nat /\
+  nth_error (el_solver_par (c1 :: c2 :: rest) L) c1 = Some 0%nat.
+Proof.
+  intros H1 H2. unfold el_solver_par. cbn [flat_map]. split.
+  - rewrite nth_error_app1 by (rewrite el_solver_seq_length; lia). rewrite el_solver_seq_nth by lia. f_equal; lia.
+  - rewrite nth_error_app2 by (rewrite el_solver_seq_length; lia). rewrite el_solver_seq_length, Nat.sub_diag.
+    rewrite nth_error_app1 by (rewrite el_solver_seq_length; lia). rewrite el_solver_seq_nth by lia. f_equal; lia.
+Qed.
+
+(* the pool's real chunking: 5 repetitions of 3 steps on 2 processes - every repetition replays the first one's draws,
+   and the start positions differ from the sequential ones *)
+Theorem el_solver_shared_refuted :
+  exists reps procs L j j', j <> j' /\ (0 < L)%nat /\
+    nth_error (el_solver_par (el_pool_chunks reps procs) L) j = nth_error (el_solver_par (el_pool_chunks reps procs) L) j'
+    /\ nth_error (el_solver_par (el_pool_chunks reps procs) L) j <> None
+    /\ el_solver_par (el_pool_chunks reps procs) L <> el_solver_seq reps L 0.
+Proof. exists 5%nat, 2%nat, 3%nat, 0%nat, 1%nat. vm_compute. repeat split; try lia; congruence. Qed.
